@@ -28,6 +28,42 @@ def fr(q):
     return q[0] / q[1]
 
 
+def schedule_part(ck, tier):
+    """DirSchedule.tla: when PcaChain re-estimates its directions (lengths at which update_directions runs, interval, next update)"""
+    from inference.mcmc import PcaChain
+    import inference.mcmc.pca as pca_mod
+    maxlen = 900 if tier == "quick" else 4000
+    for i0, gn, gd in ((100, 3, 2), (7, 3, 2), (10, 5, 4)):
+        r = run_tlc("DirSchedule", cfg_text=("SPECIFICATION Spec\nCONSTANTS Interval0 = %d GrowN = %d GrowD = %d MaxLen = %d\nINVARIANT NeverSkipped\n"
+                                             "INVARIANT Ordered\nINVARIANT Export\nCHECK_DEADLOCK FALSE\n" % (i0, gn, gd, maxlen)), workers=1, timeout=600)
+        if r.violated:
+            ck.violation("spec: DirSchedule " + ",".join(r.violated), {"violated": r.violated}, site="spec")
+        must_pass(r, "DirSchedule")
+        ck.tlc(r, "direction_schedule_%d" % i0)
+        want = r.printed[-1]
+        post = lambda x: -0.5 * float(np.sum(np.asarray(x, dtype=float) ** 2))
+        ch = PcaChain(posterior=post, start=np.array([0.5, -0.5]), widths=np.array([1.0, 1.0]), display_progress=False)
+        ch.rng = np.random.default_rng(seed() + 3)
+        for j, p_ in enumerate(ch.params):
+            p_.rng = np.random.default_rng(seed() + 7 + j)
+        ch.dir_update_interval, ch.dir_growth_factor, ch.next_update = i0, gn / gd, i0
+        seen = []
+        orig = ch.update_directions
+
+        def logged(orig=orig, ch=ch, seen=seen):
+            seen.append({"at": int(ch.chain_length), "interval_before": int(ch.dir_update_interval), "last_before": int(ch.last_update)})
+            orig()
+        ch.update_directions = logged
+        for _ in range(maxlen - 1):
+            ch.take_step()
+        ck.case(("dir-schedule", i0, gn, gd))
+        got = {"updates": seen, "next": int(ch.next_update), "interval": int(ch.dir_update_interval), "last": int(ch.last_update)}
+        if got != {k: want[k] for k in got} or list(ch.update_history) != [u["at"] for u in want["updates"]]:
+            ck.violation("direction updates happen at the chain lengths, with the intervals, the specification gives",
+                         {"interval0": i0, "growth": gn / gd, "spec": want, "code": got}, site="PcaChain.update_directions:schedule")
+    ck.traces += 3
+
+
 def run(tier):
     ck = Check("adaptation", tier)
     ck.rule = "one case per simulated behaviour of Adaptation.tla (60 attempts) replayed into the real Parameter / EpsilonSelector"
@@ -102,4 +138,5 @@ def run(tier):
         ck.traces += len(r.printed)
         if r.printed:
             ck.sample({"variant": name, "attempts": 60, "adjustments_in_first_behaviour": r.printed[0]["adj"][:3]})
+    schedule_part(ck, tier)
     return ck.finish()
